@@ -336,7 +336,15 @@ macro_rules! builder {
           }
         }
         "flat" => {
-          let inners: Vec<$bx> = ast.ids().into_iter().map(|i| $fname(env, i)).collect();
+          // one observable VALUE per AST node: an id that occurs twice is the same value (clones of one share() ...)
+          let ids = ast.ids();
+          let mut made: std::collections::BTreeMap<usize, $bx> = Default::default();
+          for i in ids.iter() {
+            if !made.contains_key(i) {
+              made.insert(*i, $fname(env, *i));
+            }
+          }
+          let inners: Vec<$bx> = ids.iter().map(|i| made[i].clone()).collect();
           let pick = move |v: Val| inners[(w(&v).rem_euclid(inners.len() as i64)) as usize].clone();
           // MergeAllOp is not Clone: wrap the construction in `defer` (which is) so that
           // the pipeline stays a cloneable value; defer only forwards actual_subscribe
